@@ -2,6 +2,7 @@ import Driver.Hist
 import Driver.File
 import Driver.Proto
 import Driver.Conc
+import Driver.Proc
 import Std.Data.HashMap
 open Driver Jamm
 
@@ -165,6 +166,29 @@ def main (args : List String) : IO UInt32 := do
     for (k, v) in l.cnt.toList do
       IO.println s!"STAT {k}={v}"
     IO.println s!"SUMMARY histories={l.nHist} bad={l.nBad}"
+    return 0
+  | ["proc", path] =>
+    -- blocks: `scenario <name> ...` followed by worker observation lines
+    let lines ← IO.FS.lines path
+    let mut cur : Option String := none
+    let mut buf : List String := []
+    let mut n := 0
+    let flush := fun (hdr : Option String) (b : List String) => do
+      match hdr with
+      | none => pure ()
+      | some h =>
+        let probs := checkProc (parseObs b)
+        if probs.isEmpty then IO.println s!"PROCOK {h}"
+        else for p in probs do IO.println s!"PROCBAD {h} ## {p.1} ## {p.2}"
+    for line in lines do
+      if line.startsWith "scenario " then
+        flush cur buf
+        cur := some line
+        buf := []
+        n := n + 1
+      else buf := buf ++ [line]
+    flush cur buf
+    IO.println s!"SUMMARY scenarios={n}"
     return 0
   | ["conc", path] =>
     let lines ← IO.FS.lines path
